@@ -135,6 +135,7 @@ def classify(unit, hspec, hres, workdir):
         desc = c.get("description", "")
         loc = c.get("location", {}) or {}
         locs = "%s:%s" % (loc.get("file", "?"), loc.get("line", "?"))
+        fn_name = c.get("function", "") or ""
         cat = c.get("category", "")
         m = LABEL_RE.match(desc)
         label = m.group(1) if m else None
@@ -156,8 +157,9 @@ def classify(unit, hspec, hres, workdir):
                 out.setdefault("unreachable_labels", []).append(label)
             continue
         if st == "Failure":
-            if any(re.search(p, desc + " @ " + locs) for p in ignore):
+            if any(re.search(p, desc + " @ " + locs + " in " + fn_name) for p in ignore):
                 out["n_ok"] += 1
+                out["n_ignored"] = out.get("n_ignored", 0) + 1
                 continue
             if label:
                 out["violations"].append(dict(label=label, desc=desc.strip('"'), loc=locs))
@@ -192,7 +194,7 @@ def classify(unit, hspec, hres, workdir):
     hstatus = hres.get("status")
     if not checks:
         out["inconclusive"].append("no checks reported (harness status %s: timeout, out of memory or CBMC error)" % hstatus)
-    elif hstatus != "Success" and not out["violations"] and not out["inconclusive"]:
+    elif hstatus != "Success" and not out["violations"] and not out["inconclusive"] and not out.get("n_ignored"):
         out["inconclusive"].append("harness status %s without a failing check" % hstatus)
     n_labelled = len(out["prop_asserts_ok"]) + len([v for v in out["violations"] if v.get("kind") != "panic"])
     if checks and n_labelled == 0 and not out["violations"]:
